@@ -114,6 +114,13 @@ def parse_mod(tok):
     if f[0] == "par":
         us = [parse_pupd(x) for x in f[1].split("+")]
         return None if any(u is None for u in us) else ("par", us)
+    if f[0] == "ext":
+        g = f[1].split("^")
+        if len(g) != 3 or g[0] == "":
+            return None
+        cds = [] if g[1] == "-" else [parse_classdef(y) for y in g[1].split(";")]
+        ps = parse_params(g[2])
+        return None if any(c is None for c in cds) or ps is None else ("ext", (g[0], cds, ps))
     return None
 
 
@@ -123,6 +130,8 @@ def fmt_mod(m) -> str:
         return f"{k}~{fmt_classdef(x)}"
     if k in ("neu", "ann"):
         return f"{k}~{x}"
+    if k == "ext":
+        return f"ext~{x[0]}^" + (";".join(fmt_classdef(c) for c in x[1]) or "-") + "^" + fmt_params(x[2])
     return "par~" + "+".join(fmt_pupd(u) for u in x)
 
 
@@ -521,6 +530,12 @@ class Ctx:
             t.neutralize_variable(x)
         elif k == "ann":
             t.annualize_variable(x)
+        elif k == "ext":
+            try:
+                t.load_extension(self.ext_package(x[0], x[1], x[2]))
+            finally:
+                for kk in [kk for kk in sys.modules if _LOADED.match(kk)]:
+                    del sys.modules[kk]
         else:
             def inst(o):
                 d = dt.date.fromordinal(o)
